@@ -533,6 +533,9 @@ pub fn generate_c03(tier: &str, seed: u64, out: &mut Out) {
     }
 }
 
+/// malformed lines of every kind the parser reports (each yields one or two errors)
+pub const VOLUME_UNITS: [&str; 9] = ["-x\n", "é\n", "nocolon\n", "@", ": v\n", " orphan\n", "A\n", "A: b\n-\n", "%%\n\n"];
+
 pub fn generate_c01(tier: &str, seed: u64, out: &mut Out) {
     for t in gen_texts(tier, seed) {
         out.req("deb.read", &[es(&t)]);
@@ -547,6 +550,21 @@ pub fn generate_c01(tier: &str, seed: u64, out: &mut Out) {
             v.extend_from_slice(ins);
             v.extend_from_slice(post);
             out.req("deb.readbytes", &[format!("x{}", hex(&v))]);
+        }
+    }
+    // volume of errors: many malformed lines followed by well-formed text (an "error limit" that
+    // stops the parser, a recovery path that only runs after N errors): 2..1000 repetitions of each
+    // kind of malformed line, with and without a tail, around the round numbers
+    for unit in VOLUME_UNITS.iter() {
+        for k in [2usize, 9, 16, 17, 31, 32, 33, 49, 50, 51, 63, 64, 65, 99, 100, 101, 127, 128, 129, 255, 256, 257, 500, 1000] {
+            if tier != "thorough" && k > 260 && unit.len() > 3 {
+                continue;
+            }
+            for tail in ["", "Source: a\nB: c\n d\n\n# e\nF: g\n", "x"] {
+                let mut t = unit.repeat(k);
+                t.push_str(tail);
+                out.req("deb.read", &[es(&t)]);
+            }
         }
     }
     // long inputs whose multi-byte characters lie across every power-of-two block boundary up to
